@@ -46,7 +46,14 @@ PROPERTIES = {
                         "so that a stalled machine raises no false alarm). Determinism: the model is a function, so C12_deterministic "
                         "is trivial for it; run-to-run variation of the Go code (map iteration order, state kept between parsers) is "
                         "outside the functional model and is observed by parsing every text five times with fresh parsers and "
-                        "comparing all outcomes including the error text. KNOWN FINDING " + "C12-lookahead-scanner-error-drops-previous-definition"
+                        "comparing all outcomes including the error text, and (history) by parsing a seeded sample of earlier texts - accepted and "
+                        "rejected ones - AGAIN after every 4th case, with all the parses in between behind them (failing parses, files that "
+                        "use the same invalid spellings as attribute names), requiring the first outcome again (HIST lines, counted as "
+                        "<stream>-history-ok/err; in the C04 run one file in six is followed by a failing corruption of itself, compared "
+                        "with the model as c12b-interleaved-<operator>). Aliasing of the caller's buffer is a fact about Go memory that the "
+                        "functional model cannot express (its definitions are values): the first run of every case parses from a buffer "
+                        "the harness owns and reuses, overwrites it with 0xFF bytes and then with another text, and dumps Defs() again "
+                        "each time - it must not change (diff-aliased-buffer). KNOWN FINDING " + "C12-lookahead-scanner-error-drops-previous-definition"
                         ": a NUL / invalid UTF-8 byte as the very first byte after a BS_, NS_, BO_ or SG_ definition (or directly after "
                         "the line end of a BU_ / unknown line) is reported by the scanner while that definition is still reading, so it "
                         "is missing from Defs(); exactly these cases are excluded, every other locality failure is a violation.",
@@ -70,7 +77,10 @@ RULES = {
            "particular order with duplicates, BA_DEF_DEF_ / BA_ enum values by index, by the name of a declared value (every "
            "position of the list after one ENUM definition in three: c04-enum-probe-by-name) and by an arbitrary string; "
            "near-colliding identifiers and attribute names (capitalization, one character replaced / added / dropped), references "
-           "to attribute names that match no BA_DEF_ exactly; every text parsed five times (all outcomes equal); layouts (LF/CRLF/mixed, blank "
+           "to attribute names that match no BA_DEF_ exactly or are no valid identifiers (six spellings with a non-ASCII letter per "
+           "run, shared by all files and by the invalid-ident corruption); every text parsed five times (all outcomes equal), the "
+           "first time from a reused caller buffer that is overwritten afterwards (Defs() must not change); one file in six "
+           "followed by a failing corruption of itself; earlier texts parsed again after every 4th case (history); layouts (LF/CRLF/mixed, blank "
            "lines, indentation, extra spaces, empty gaps next to punctuation, line ends inside definitions); one case per file "
            "(c04-file, non-trivial = at least one definition, distinct by text hash) plus one count per expected definition "
            "(c04-def-<kind>) plus the strconv oracle stream (num)",
